@@ -1947,6 +1947,8 @@ class GroupBy:
         keep_input_index: bool = False,
         n: Optional[int] = None,
     ):
+        # same length / index rules as for every other operation
+        self._preprocess_arguments(values, mask=None)
         value_list, value_names = convert_data_to_arr_list_and_keys(values)
         common_index = _validate_input_lengths_and_indexes(value_list)
         keep = ilocs > -1
@@ -2430,6 +2432,8 @@ class GroupBy:
         max_diff: float | int
             The threshold distance for forming a new sub-group
         """
+        # same length / index rules as for every other operation
+        self._preprocess_arguments(values, mask=None)
         # chunked codes are local to their chunk: the kernel needs the global ones
         self._unify_group_key_chunks()
         return numba_funcs.group_nearby_members(
